@@ -54,7 +54,15 @@ def check(ctx):
             lm[site.rowloop] = "ROW"
         if site.colloop is not None:
             lm[site.colloop] = "COL"
-        g = tuple((canon_ids(simp(c), lm), pol) for c, pol in site.fact.guards)
+        iters = set()
+        for lp in site.fact.loops:
+            it = simp(lp.iter)
+            iters.add(it)
+            if it[0] == "call" and it[1] in (("global", "enumerate"), ("global", "list"), ("global", "tuple")) and len(it[2]) >= 1:
+                iters.add(simp(it[2][0]))
+        lens = {("call", ("global", "len"), (it,), ()) for it in iters}
+        # (`if xs:` around / inside `for x in xs:` -- a guard clause in front of the column loop -- holds for every iteration)
+        g = tuple((canon_ids(simp(c), lm), pol) for c, pol in site.fact.guards if not (pol is True and (simp(c) in iters or simp(c) in lens)))
         return (canon_ids(site.rowbase, lm) if site.rowbase is not None else canon_ids(site.row, lm), g)
 
     # no store into the Jacobian table at all: the table is kept in a representation that is not understood (not "every derivative
@@ -223,6 +231,11 @@ def check(ctx):
             n6 += 1
             lw = lower(s.fact.value)
             txt = lw.text
+            head = txt.lstrip()
+            if any(head.startswith(k_) for k_ in list(lw.holes) + list(lw.seqs)) or lw.errors:
+                # the term begins with a value that was not read as text (a sign / prefix computed elsewhere): not "empty"
+                ctx.unrec("R6", f"{site_key(s)}:nonempty", where(s), f"the appended term begins with a value that is not read as text: {txt[:100]}")
+                continue
             ctx.check(len(txt.strip()) > 0 and txt.lstrip()[:1] in "+-" and txt != "", "R6", f"{site_key(s)}:nonempty", where(s),
                       "every store appends a non-empty signed term, so a slot equals '0.0' iff no store reached it", found=txt)
     ctx.floor("R6", "jacobian stores", n6, 5)
@@ -524,14 +537,17 @@ def _pair(ctx, m, kind, rs, js):
             ctx.bad("R1", f"{site_key(js)}:loops", where(js), "row and column are driven by the same loop variable")
             good = False
         if good and len(js.fact.loops) != 3:
-            ctx.bad("R1", f"{site_key(js)}:loops", where(js), f"expected reaction x row x column loops, found {len(js.fact.loops)} loops")
+            # (the same nest as the RHS term plus the column loop, under a common outer loop, is another spelling of the enumeration)
+            (ctx.bad if len(rs.fact.loops) == 2 else ctx.unrec)("R1", f"{site_key(js)}:loops", where(js), f"expected reaction x row x column loops, found {len(js.fact.loops)} loops"
+                                                              + ("" if len(rs.fact.loops) == 2 else f" (the RHS term sits in {len(rs.fact.loops)})"))
             good = False
     elif kind in ("heat", "cool"):
         if js.row != ("tgas",):
             ctx.bad("R1", f"{site_key(js)}:row", where(js), "thermal Jacobian term must be stored in row n_spec", found=str(js.row))
             good = False
         if good and len(js.fact.loops) != 2:
-            ctx.bad("R1", f"{site_key(js)}:loops", where(js), f"expected process x column loops, found {len(js.fact.loops)}")
+            (ctx.bad if len(rs.fact.loops) == 1 else ctx.unrec)("R1", f"{site_key(js)}:loops", where(js), f"expected process x column loops, found {len(js.fact.loops)}"
+                                                              + ("" if len(rs.fact.loops) == 1 else f" (the RHS term sits in {len(rs.fact.loops)})"))
             good = False
     else:
         if js.row != rs.row:
@@ -707,8 +723,11 @@ def _r4_templates(ctx, rule_decode="R4", rule_omit="R6", sent=None):
             texts = ("row = (loop.index0 / ode.jac.nrow) | int", "col = loop.index0 % ode.jac.nrow")
         else:
             # rows of ode.jac.nrow consecutive entries: entry c of row r is ode.jac.rhs[r * nrow + c]
-            ctx.check(J.canon(rec["batch"]) == NROW, rule_decode, f"{label}:row-length", (rel, line), "the table is cut into rows of ode.jac.nrow entries",
-                      expected="batch(ode.jac.nrow)", found=J.show(rec["batch"]))
+            if J.canon(rec["batch"]) == NROW or positional(J.canon(rec["batch"])):
+                ctx.check(J.canon(rec["batch"]) == NROW, rule_decode, f"{label}:row-length", (rel, line), "the table is cut into rows of ode.jac.nrow entries",
+                          expected="batch(ode.jac.nrow)", found=J.show(rec["batch"]))
+            else:
+                ctx.unrec(rule_decode, f"{label}:row-length", (rel, line), f"the row length `{J.show(rec['batch'])[:80]}` the table is cut by is not read as a field of ode.jac / a length of the network's lists")
             want_row, want_col = out0, idx0
             texts = ("row = position of the row in ode.jac.rhs | batch(nrow)", "col = position of the entry in its row")
         # wrong: another arithmetic expression of the loop position and nrow; anything else (a macro, a filter, a table) is not understood
